@@ -8,6 +8,14 @@ Oracle: model written from the DT_In docstring and the property statement
 (``vlib/c10_util.py``): which elements in which order, position variables from the index in
 the shown order, roman numerals by an own converter, run boundaries for first-x/last-x, alias
 equality, outer values (or nothing) after the end tag.
+
+Partial reads: a documented value does not depend on which elements the body reads it on.  In the
+gated families every field of the record sits behind a ``dtml-if`` on a per-element gate (one gate
+per record, per family of related variables, or per field; the gate is an attribute of the element
+or a list indexed by ``sequence-index``); a closed gate must print the skip token, an open one the
+documented value.  Only the identity of the element (sequence-item / sequence-key) is printed on
+every element.  Tag spellings: the same records through ``<!--#in-->`` and ``%(in)[`` (class
+String), the else / end tag repeating the name of the in tag, ``name=``, entity reads.
 """
 import itertools
 import zlib
@@ -22,9 +30,18 @@ RULE = ('exhaustive grid: every x-pattern of the stated alphabet for length 0..4
         'conflicting outer namespace rotate by a hash, full product for length 0); a batch family '
         '(size | start+size | start+end windows inside the sequence); a nested family (inner loop '
         'over an attribute of the outer element / a global, with and without prefixes); seeded '
-        'longer sequences (<= 26 with letters, <= 60 roman). A case is non-trivial when the '
+        'longer sequences (<= 26 with letters, <= 60 roman); a gated family (partial reads: every '
+        'binary x-pattern of length 2..5 (thorough 2..6, ternary 2..4) x every subset of positions '
+        'that read the run boundaries, gate per record / per variable family / per field, gate by '
+        'element attribute or by sequence-index, a second run attribute y and a permuted reading '
+        'order by hash); a syntax family (tag style dtml / comment / %()[ x name, name=, expr, '
+        '"expr" x else tag plain or repeating the name x end tag plain, named, <!--#endin--> x '
+        'length 0..3 (thorough 0..4) x kind x unbatched / size / start+size; entity reads and an '
+        'else body of several blocks by hash); seeded cases decorated with gates / y / reading '
+        'order / spelling. A case is non-trivial when the '
         'sequence is non-empty or an else block decides the empty case; distinct = distinct '
-        '(family, kind, container, options, prefix, form, else, outer, x-pattern, values, window)')
+        '(family, kind, container, options, prefix, form, else, outer, x-pattern, values, window, '
+        'spelling, gates, y-pattern, reading order)')
 ASSUMPTIONS = [
     'sequence-key is read for 2-tuple elements only; sequence-var-x, first-x, last-x and the '
     'plain names x/id only where every element defines them (objects; mappings with `mapping`)',
@@ -36,6 +53,14 @@ ASSUMPTIONS = [
     'batch windows are limited to shapes the docstring fixes: size; start+size; start+end with '
     '1 <= start <= end <= length',
     'no guards, no skip_unauthorized (the property does not quantify over them)',
+    'a gated body prints sequence-item (2-tuples: sequence-key) on every element to identify it; '
+    'every other variable is read only where its gate is open; a prefix alias whose sequence- '
+    'form is not read on the same element is compared with the documented value itself',
+    'the else / end tag repeats the name only where the in tag names its sequence (name or '
+    'name= form); the "expr" shorthand is generated for the HTML spellings only (the %()[ tag '
+    'pattern does not admit it); entity reads are used for values html_quote leaves unchanged',
+    'the gate expression reads sequence-index through the namespace variable _ '
+    '(_[\'sequence-index\']); this is itself a read of a documented variable on every element',
 ]
 SHARD_TIMEOUT = {'quick': 600, 'thorough': 3000}
 NSHARDS = {'quick': 16, 'thorough': 48}
@@ -179,6 +204,154 @@ def random_case(rng):
             'outer': rng.random() < 0.3, 'else': rng.random() < 0.5}
 
 
+# ---------------------------------------------------------------- partial reads (gates)
+def bits(k, width, salt):
+    """`width` hash-derived bits"""
+    out, j = 0, 0
+    while out.bit_length() < width + 32:
+        out = (out << 32) | h(k, salt, j)
+        j += 1
+    return out & ((1 << width) - 1)
+
+
+def run_values(k, n, alphabet=(0, 1)):
+    """hash-derived values with runs of equal neighbours"""
+    ys = []
+    j = 0
+    while len(ys) < n:
+        w = h(k, 'y', j)
+        ys += [alphabet[w % len(alphabet)]] * (1 + (w >> 8) % 3)
+        j += 1
+    return ys[:n]
+
+
+GATE_WIDTH = 96      # more slots than any record has fields
+
+
+def gate_rows(gran, n, P, k):
+    """open slots per position: P (n bits) says where the run boundaries are read; with one gate
+    per record it is the whole gate, with one gate per family of variables last-x follows the
+    mirrored pattern and the other families are hash-derived, with one gate per field all are"""
+    rows = []
+    for p in range(n):
+        bit = (P >> p) & 1
+        if gran == 'record':
+            rows.append(bit)
+        elif gran == 'group':
+            m = bits(k, U.NGROUPS, ('g', p)) & ~0b1111000
+            m |= bit << 3 | ((P >> (n - 1 - p)) & 1) << 4
+            m |= ((h(k, 'fy') >> p) & 1) << 5 | ((h(k, 'ly') >> p) & 1) << 6
+            rows.append(m)
+        else:
+            rows.append(bits(k, GATE_WIDTH, ('f', p)))
+    return rows
+
+
+def gated_cases(tier):
+    """bodies that read a variable on some elements only: every x-pattern x every subset of the
+    positions (one gate per record / per family of variables), all other choices by hash"""
+    kinds = ('obj', 'map', 'tup_obj') if tier == 'quick' else ('obj', 'map', 'tup_obj', 'tup_map')
+    plan_ = [(n, (0, 1)) for n in range(2, 6 if tier == 'quick' else 7)]
+    if tier != 'quick':
+        plan_ += [(n, (0, 1, 2)) for n in range(2, 5)]
+    for n, alpha in plan_:
+        for xs in itertools.product(alpha, repeat=n):
+            if len(alpha) == 3 and 2 not in xs:
+                continue                                  # already in the binary part
+            for P in range(1 << n):
+                k = h('gated', xs, P)
+                kind = kinds[k % len(kinds)]
+                osets = [o for o in option_sets(kind) if U.has_x(kind, o)]
+                opts = osets[(k >> 3) % len(osets)]
+                conts = containers_for(kind)
+                gran = ('record', 'group', 'field')[(k >> 13) % 3]
+                by = 'attr' if (k >> 15) & 1 and not opts['no_push_item'] else 'index'
+                yield {'family': 'flat', 'kind': kind, 'container': conts[(k >> 9) % len(conts)],
+                       'opts': opts, 'xs': list(xs), 'vals': None, 'form': FORMS[(k >> 21) % 3],
+                       'outer': bool((k >> 23) & 1), 'else': bool((k >> 24) & 1),
+                       'gate': {'by': by, 'gran': gran, 'rows': gate_rows(gran, n, P, k)},
+                       'ys': run_values(k, n) if (k >> 17) & 1 else None,
+                       'perm': k % 1000 if (k >> 19) % 4 == 0 else None}
+
+
+# ---------------------------------------------------------------- tag spellings
+def spellings():
+    """(style, form, else spelling, end spelling): the else / end tag may repeat the name of the
+    in tag where the in tag gives a name"""
+    for style in U.Syn.STYLES:
+        ends = ('plain', 'named', 'end') if style == 'comment' else ('plain', 'named')
+        for form in ('name', 'name=', 'expr', 'quoted'):
+            for els in ('plain', 'named'):
+                for end in ends:
+                    if form in ('expr', 'quoted') and (els == 'named' or end != 'plain'):
+                        continue
+                    if form == 'quoted' and style == 'epfs':
+                        continue        # the "..." shorthand belongs to the HTML spellings
+                    yield style, form, els, end
+
+
+SYNTAX_BATCHES = (None, {'size': 2}, {'start': 1, 'size': 3})
+
+
+def syntax_cases(tier):
+    """every tag spelling x empty and short sequences x kinds x unbatched / batched"""
+    top = 3 if tier == 'quick' else 4
+    for n in range(0, top + 1):
+        for xs in itertools.product((0, 1), repeat=n):
+            for kind in ('obj', 'map', 'tup_obj', 'str', 'int'):
+                for bi, batch in enumerate(SYNTAX_BATCHES):
+                    for style, form, els, end in spellings():
+                        k = h('syntax', xs, kind, bi, style, form, els, end)
+                        osets = list(option_sets(kind, full=not batch))
+                        opts = osets[k % len(osets)]
+                        if batch and kind == 'map' and not opts['mapping']:
+                            opts = dict(opts, mapping=True, sort=None)
+                        conts = containers_for(kind)
+                        case = {'family': 'batch' if batch else 'flat', 'kind': kind,
+                                'container': conts[(k >> 7) % len(conts)], 'opts': opts,
+                                'xs': list(xs), 'vals': vals_for(kind, xs), 'form': form,
+                                'outer': bool((k >> 11) & 1),
+                                'else': n == 0 or els == 'named' or bool((k >> 12) & 1),
+                                'syntax': {'style': style, 'else': els, 'end': end,
+                                           'entity': bool((k >> 13) & 1),
+                                           'rich_else': bool((k >> 14) & 1)}}
+                        if batch:
+                            case['batch'] = batch
+                        yield case
+
+
+def rich_random_case(rng):
+    """a seeded case with partial reads, a second run attribute, another reading order and / or
+    another tag spelling"""
+    case = random_case(rng)
+    kind, opts, n = case['kind'], case['opts'], len(case['xs'])
+    hasx = U.has_x(kind, opts)
+    todo = [rng.random() < 0.6, hasx and rng.random() < 0.4, rng.random() < 0.3, rng.random() < 0.4]
+    if not any(todo):
+        todo[0] = True
+    if todo[0]:
+        gran = rng.choice(('record', 'group', 'field'))
+        width = {'record': 1, 'group': U.NGROUPS, 'field': GATE_WIDTH}[gran]
+        dens = rng.choice((0.25, 0.5, 0.75))
+        rows = [sum((rng.random() < dens) << s for s in range(width)) for _ in range(n)]
+        by = 'attr' if hasx and not opts['no_push_item'] and rng.random() < 0.5 else 'index'
+        case['gate'] = {'by': by, 'gran': gran, 'rows': rows}
+    if todo[1]:
+        alpha = rng.choice([(0, 1), ('a', 'b', 'c'), (0, '', 'a')])
+        ys = []
+        while len(ys) < n:
+            ys += [rng.choice(alpha)] * rng.choice([1, 1, 2, 4])
+        case['ys'] = ys[:n]
+    if todo[2]:
+        case['perm'] = rng.randrange(10 ** 6)
+    if todo[3]:
+        style, form, els, end = rng.choice(list(spellings()))
+        case['form'] = form
+        case['syntax'] = {'style': style, 'else': els, 'end': end, 'entity': rng.random() < 0.5,
+                          'rich_else': rng.random() < 0.5}
+    return case
+
+
 # ---------------------------------------------------------------- known-finding classifier
 def classify(case, problems):
     """mechanism key of a known finding, or None (no genuine C10 defect is known so far)"""
@@ -186,21 +359,35 @@ def classify(case, problems):
 
 
 # ---------------------------------------------------------------- shard
+ANCHORS = (('InClass.renderwob', 'DT_In', 'InClass.renderwob'),
+           ('InClass.renderwb', 'DT_In', 'InClass.renderwb'),
+           ('InClass.sort_sequence', 'DT_In', 'InClass.sort_sequence'),
+           ('InClass.reverse_sequence', 'DT_In', 'InClass.reverse_sequence'),
+           ('sequence_variables.__getitem__', 'DT_InSV', 'sequence_variables.__getitem__'),
+           ('sequence_variables.__setitem__', 'DT_InSV', 'sequence_variables.__setitem__'),
+           ('sequence_variables.first', 'DT_InSV', 'sequence_variables.first'),
+           ('sequence_variables.last', 'DT_InSV', 'sequence_variables.last'),
+           ('sequence_variables.value', 'DT_InSV', 'sequence_variables.value'),
+           ('add_with_prefix', 'DT_Util', 'add_with_prefix'),
+           ('Add_with_prefix.__setitem__', 'DT_Util', 'Add_with_prefix.__setitem__'),
+           ('sequence_ensure_subscription', 'DT_Util', 'sequence_ensure_subscription'),
+           ('SequenceFromIter.__getitem__', 'DT_Util', 'SequenceFromIter.__getitem__'))
+
+
 def anchors():
-    from DocumentTemplate import DT_In, DT_InSV, DT_Util
-    return [('InClass.renderwob', DT_In.InClass.renderwob),
-            ('InClass.renderwb', DT_In.InClass.renderwb),
-            ('InClass.sort_sequence', DT_In.InClass.sort_sequence),
-            ('InClass.reverse_sequence', DT_In.InClass.reverse_sequence),
-            ('sequence_variables.__getitem__', DT_InSV.sequence_variables.__getitem__),
-            ('sequence_variables.__setitem__', DT_InSV.sequence_variables.__setitem__),
-            ('sequence_variables.first', DT_InSV.sequence_variables.first),
-            ('sequence_variables.last', DT_InSV.sequence_variables.last),
-            ('sequence_variables.value', DT_InSV.sequence_variables.value),
-            ('add_with_prefix', DT_Util.add_with_prefix),
-            ('Add_with_prefix.__setitem__', DT_Util.Add_with_prefix.__setitem__),
-            ('sequence_ensure_subscription', DT_Util.sequence_ensure_subscription),
-            ('SequenceFromIter.__getitem__', DT_Util.SequenceFromIter.__getitem__)]
+    """engine internals watched as a diagnosis of where the workload went; a name that a
+    refactoring removed is skipped (the verdict rests on the output comparisons)"""
+    import importlib
+    out = []
+    for label, mod, path in ANCHORS:
+        try:
+            obj = importlib.import_module('DocumentTemplate.' + mod)
+            for part in path.split('.'):
+                obj = getattr(obj, part)
+        except (ImportError, AttributeError):
+            continue
+        out.append((label, obj))
+    return out
 
 
 def run(ctx, spec):
@@ -213,7 +400,8 @@ def run(ctx, spec):
     hz = U.Harness(ctx, HTML)
     T = hz.tally
     sampled = 0
-    for fam, gen in (('grid', grid_cases), ('batch', batch_cases), ('nested', nested_cases)):
+    for fam, gen in (('grid', grid_cases), ('batch', batch_cases), ('nested', nested_cases),
+                     ('gated', gated_cases), ('syntax', syntax_cases)):
         for i, case in enumerate(gen(ctx.tier)):
             if i % ctx.nshards != ctx.shard:
                 continue
@@ -223,7 +411,10 @@ def run(ctx, spec):
     for _ in range(nrand):
         T.c('cases:seeded')
         hz.evaluate(random_case(ctx.rng), classify)
-    if ctx.shard < 3:
+    for _ in range((2000 if ctx.tier == 'quick' else 30000) // ctx.nshards):
+        T.c('cases:seeded rich')
+        hz.evaluate(rich_random_case(ctx.rng), classify)
+    if ctx.shard < 5:
         for case in ({'family': 'flat', 'kind': 'tup_obj', 'container': 'gen', 'form': 'name',
                       'opts': {'mapping': False, 'no_push_item': False, 'prefix': 'p', 'sort': 'x',
                                'reverse': True}, 'xs': [1, 0, 1], 'vals': None, 'outer': False,
@@ -234,7 +425,19 @@ def run(ctx, spec):
                       'vals': [2, 0, 1, 1], 'batch': {'start': 2, 'size': 2}, 'outer': True,
                       'else': False},
                      {'family': 'nested', 'kids': [2, 0, 1], 'oprefix': 'o', 'iprefix': None,
-                      'inner': 'attr', 'container': 'list', 'gkids': 0})[ctx.shard:ctx.shard + 1]:
+                      'inner': 'attr', 'container': 'list', 'gkids': 0},
+                     {'family': 'flat', 'kind': 'obj', 'container': 'lazy', 'form': 'name',
+                      'opts': {'mapping': False, 'no_push_item': False, 'prefix': None,
+                               'sort': None, 'reverse': False}, 'xs': [0, 0, 1, 1], 'vals': None,
+                      'outer': False, 'else': False, 'ys': [0, 1, 1, 1],
+                      'gate': {'by': 'index', 'gran': 'record', 'rows': [1, 1, 0, 1]}},
+                     {'family': 'flat', 'kind': 'int', 'container': 'tuple', 'form': 'name',
+                      'opts': {'mapping': False, 'no_push_item': False, 'prefix': 'p',
+                               'sort': None, 'reverse': False}, 'xs': [], 'vals': [],
+                      'outer': False, 'else': True,
+                      'syntax': {'style': 'epfs', 'else': 'named', 'end': 'named',
+                                 'entity': False, 'rich_else': True}},
+                     )[ctx.shard:ctx.shard + 1]:
             ctx.sample(sample_of(hz, case))
             sampled += 1
     T.flush(ctx)
@@ -249,10 +452,13 @@ def sample_of(hz, case):
         out = hz.template(src)(outer=U.make_container(case['container'], outer), gk=glob)
         return {'case': case, 'source': U.show(src, 900),
                 'sequence': repr([(o, o.kids) for o in outer])[:300], 'output': U.show(out, 1200)}
-    elements, _ = U.build_elements(case['kind'], case['xs'], case.get('vals'))
-    src, _ = U.flat_source(case)
+    src, fields = U.flat_source(case)
+    extras, kwargs = U.case_extras(case, [lab for lab, _ in fields])
+    elements, _ = U.build_elements(case['kind'], case['xs'], case.get('vals'), extras)
     ns = U.outer_namespace(case['opts']) if case.get('outer') else {}
-    out = hz.template(src)(None, ns, seq=U.make_container(case['container'], elements))
+    style = (case.get('syntax') or {}).get('style', 'dtml')
+    out = hz.template(src, style)(None, ns, seq=U.make_container(case['container'], elements),
+                                  **kwargs)
     return {'case': case, 'source': U.show(src, 900), 'sequence': repr(elements)[:300],
             'output': U.show(out, 1200)}
 
@@ -276,16 +482,41 @@ def finish(agg):
         if not t.get('lengths', {}).get(n):
             inc.append('no case of length ' + n)
     for k in ('records compared', 'after-end probes compared', 'empty sequences',
-              'nested records compared', 'cases:grid', 'cases:batch', 'cases:seeded'):
+              'nested records compared', 'cases:grid', 'cases:batch', 'cases:seeded',
+              'cases:gated', 'cases:syntax', 'cases:seeded rich', 'gated cases compared',
+              'gated fields read', 'gated fields skipped',
+              'first-x read on an element whose predecessor did not read it',
+              'last-x read on an element whose successor does not read it',
+              'cases with a second run attribute y', 'cases with a permuted reading order'):
         if not c.get(k):
             inc.append('monitor never evaluated: ' + k)
-    for r in ('InClass.renderwob', 'InClass.renderwb', 'sequence_variables.__getitem__',
-              'sequence_variables.__setitem__', 'sequence_variables.first',
-              'sequence_variables.last', 'add_with_prefix', 'Add_with_prefix.__setitem__',
-              'sequence_ensure_subscription', 'SequenceFromIter.__getitem__',
-              'InClass.sort_sequence', 'InClass.reverse_sequence'):
-        if not c.get('reach:' + r):
-            inc.append('anchor never entered: ' + r)
+    for v in ('sequence-var-y', 'first-y', 'last-y', 'if:first-y', 'if:last-y'):
+        if not seen.get(v):
+            inc.append('variable never read and compared: ' + v)
+    for g in ('index', 'attr'):
+        for gran in ('record', 'group', 'field'):
+            if not t.get('gates', {}).get('%s/%s' % (g, gran)):
+                inc.append('partial reads never rendered: gate by %s, one per %s' % (g, gran))
+    for style in U.Syn.STYLES:
+        if not t.get('syntax styles', {}).get(style):
+            inc.append('tag spelling never rendered: ' + style)
+        for els in ('plain', 'named'):
+            for b in ('plain', 'batch'):
+                key = '%s/else %s/%s' % (style, els, b)
+                if not t.get('else decided on an empty sequence', {}).get(key):
+                    inc.append('else body never decided on an empty sequence: ' + key)
+    # what the engine anchors used to vouch for, demanded at the output level instead
+    codes = list(t.get('option subsets', {}))
+    for pos, letters, what in ((0, 'M', 'mapping'), (1, 'N', 'no_push_item'), (2, 'P', 'prefix'),
+                               (3, 'XE', 'sort=x'), (3, 'I', 'sort=sequence-item'),
+                               (3, 'K', 'valueless sort'), (4, 'RT', 'reverse')):
+        if not any(code[pos] in letters for code in codes):
+            inc.append('option never rendered and compared: ' + what)
+    for shape in ('size', 'size+start', 'end+start'):
+        if not t.get('batch shapes', {}).get(shape):
+            inc.append('batch shape never rendered: ' + shape)
+    # engine internals: diagnosis only (a renamed helper must not mask an evaluated oracle)
+    unreached = [label for label, _, _ in ANCHORS if not c.get('reach:' + label)]
     kc = t.get('kind x container', {})
     kinds = ('obj', 'map', 'tup_obj', 'str', 'int')
     for kind in kinds:
@@ -295,6 +526,7 @@ def finish(agg):
     tier = agg['tier']
     return {'inconclusive': inc,
             'coverage': {'exhaustive': True,
+                         'engine anchors not entered (diagnosis only)': unreached,
                          'grid': {'length': [0, 4 if tier == 'quick' else 6],
                                   'x alphabet': '{0,1}' if tier == 'quick' else '{0,1,2} (length 6: {0,1})',
                                   'x patterns': sum(1 for _ in patterns(tier)),
